@@ -552,3 +552,42 @@ class ItemLEncode:
 
     def ensures(self, result, case):
         return seq_eq_at(result[:2], 0, e5.header_min(0, case["n"])) and concat_at(result, 2, self._value)
+
+
+# ItemL.encode for ANY number of children (heap region of symbolic size, as Array.encode in C01_containers)
+from contracts.C01_containers import KIDS, kids_ok, lens, children_at, hlen  # noqa: E402
+
+
+@contract("secsgem.secs.item_l:ItemL.encode", "C14", name="ItemLEncodeAny")
+class ItemLEncodeAny:
+    """every element count n (0 .. 2**24-1, beyond that ValueError): L header with the minimal number of length bytes, then
+    the encodings of all children in order, nothing else"""
+
+    cases = None
+    uses = [ChildEncodeAbs]
+
+    def inputs():
+        return {"self": Obj(IL.ItemL, _value=RegionList(KIDS))}
+
+    def requires(self):
+        return kids_ok(self._value)
+
+    def raises(self):
+        return {ValueError: len(self._value) > 0xFFFFFF}
+
+    def ensures(self, result):
+        n = len(self._value)
+        h = hlen(n)
+        return {"header": seq_eq_at(result, 0, e5.header_min(0, n)),
+                "length": len(result) == h + prefix_sum(lens(self._value), n),
+                "children-in-order": children_at(result, h, self._value, n)}
+
+    def inv(self, result, i):
+        n = len(self._value)
+        h = hlen(n)
+        return (seq_eq_at(result, 0, e5.header_min(0, n))
+                and len(result) == h + prefix_sum(lens(self._value), i)
+                and forall(0, i, lambda k: prefix_sum(lens(self._value), k) + self._value[k].g_len <= prefix_sum(lens(self._value), i) and prefix_sum(lens(self._value), k) >= 0)
+                and children_at(result, h, self._value, i))
+
+    loops = {1: Loop(a=inv)}
